@@ -279,6 +279,53 @@ def load_known():
         return {'findings': [], 'fixed': []}
 
 
+SETS = os.path.join(VERIF, 'findings', 'sets')
+
+
+def set_file_name(signature):
+    """File name of the failing set of a recorded signature (findings/sets/<property>/<this>.json)."""
+    return re.sub(r'[^A-Za-z0-9._:+=-]', '_', signature) + '.json'
+
+
+def load_sets(prop):
+    """The committed per-signature failing sets of a property: {signature: {'failing': set(keys), 'file': path, ...}}.
+    A recorded finding with a failing set exempts exactly the inputs (keys) of the set: the same signature on an input
+    outside the set is a new violation; an input of the set that passes today is listed as stale (never an alarm)."""
+    out = {}
+    d = os.path.join(SETS, prop)
+    try:
+        names = sorted(os.listdir(d))
+    except OSError:
+        return out
+    for n in names:
+        if not n.endswith('.json'):
+            continue
+        try:
+            with open(os.path.join(d, n), encoding='utf-8') as f:
+                j = json.load(f)
+        except (OSError, ValueError) as e:
+            raise InfraError('unreadable failing set %s: %s' % (os.path.join(d, n), e))
+        if j.get('property') != prop or 'signature' not in j or not isinstance(j.get('failing'), list):
+            raise InfraError('malformed failing set %s (property / signature / failing)' % os.path.join(d, n))
+        j['file'] = os.path.relpath(os.path.join(d, n), VERIF)
+        j['failing'] = set(j['failing'])
+        out[j['signature']] = j
+    return out
+
+
+def input_key(failing_input):
+    """Default key of an input in a failing set: culture|query[|reference] of the usual failing_input dict."""
+    if isinstance(failing_input, dict) and 'query' in failing_input:
+        k = '%s|%s' % (failing_input.get('culture', ''), failing_input['query'])
+        ref = failing_input.get('reference', failing_input.get('ref'))
+        if ref is not None:
+            k += '|' + (ref if isinstance(ref, str) else ','.join(str(x) for x in ref))
+        return k
+    if isinstance(failing_input, str):
+        return failing_input
+    return None if failing_input is None else json.dumps(failing_input, sort_keys=True, ensure_ascii=False, default=str)
+
+
 def seed_from_env():
     try:
         return int(os.environ.get('VERIF_SEED', '1'))
